@@ -78,7 +78,7 @@ def main(tier, replay=None):
     binary = cc.build()
     items, nitems, mc = cc.gen_items("MC_Codec_c04_%s.cfg" % tier, wd, tier)
     trie = os.path.join(wd, "records.ndjson")
-    hargs = ["c04", "--vectors", items, "--exhaust", "4" if thorough else "3", "--random", "1000000" if thorough else "30000",
+    hargs = ["c04", "--vectors", items, "--exhaust", "4" if thorough else "3", "--random", "1000000" if thorough else "200000",
              "--seed", str(vlib.seed()), "--sample", "256" if thorough else "64", "--threads", str(cc.workers(tier)), "--out", trie]
     hs = vlib.harness(binary, hargs, timeout=1500)
 
@@ -147,7 +147,7 @@ def main(tier, replay=None):
                 "multi-edit strings. Every input is fed to the real parser under catch_unwind. distinct_nontrivial = inputs the "
                 "real parser ACCEPTED (or that panicked) with a distinct observable behaviour (accessor values, size, "
                 "re-serialisation, re-parse), each recorded and judged by TLC against Codec.tla." % (
-                    nitems, "depth 2" if thorough else "depth 1", 4 if thorough else 3, hs.get("parsers", 0), 1000000 if thorough else 30000),
+                    nitems, "depth 2" if thorough else "depth 1", 4 if thorough else 3, hs.get("parsers", 0), 1000000 if thorough else 200000),
         "samples": samples,
         "exhaustive": False,
         "accepted_inputs": hs["accepted"],
